@@ -1,5 +1,19 @@
-(* C12_Spec.v — C12 as a predicate over what the scripted hook and the harness observe. *)
-From Verif Require Import Common C12_Model.
+(* C12_Spec.v — C12 as a predicate over what the scripted hook and the harness observe.
+
+   "after a zero exit the output files are parsed and applied and a malformed output fails the
+   execution": WELL-FORMED is defined here from the text side, not by running the model of the Go
+   decoder.  A metrics file is well-formed iff it is empty or a whitespace-separated sequence of
+   JSON documents (RFC 8259, JsonText.parse_stream) each acceptable to the documented schema
+   (docs/src/metrics/METRICS_FROM_HOOKS.md); an admission / conversion response file iff it is
+   empty or exactly ONE JSON document (JsonText.parse_single) acceptable to its schema.  The
+   verdict is three-valued: where the documentation does not say whether a document is
+   acceptable - a key that differs from a documented one only in letter case, a documented key
+   given twice, `null` for a documented key or inside its array/map, `null` as the document, a
+   shortcut (`add`/`set`) next to `action`/`value`, an explicitly empty name/group/action, the
+   opaque `patch` of an admission response - the verdict is [None] and P demands nothing of the
+   outcome (the model-vs-code comparison still covers those texts).  The patch file is YAML and
+   stays one of the four kinds. *)
+From Verif Require Import Common Json JsonText C12_Model.
 Open Scope N_scope.
 
 Record observation := mkOb {
@@ -14,18 +28,192 @@ Record observation := mkOb {
   ob_bad : bool
 }.
 
-Definition all_parse (i : input) : bool :=
-  parses (i_metrics i) && parses (i_patch i) && parses (i_admission i) && parses (i_conversion i).
+(* ---------------------------------------------------------------- verdicts *)
+Definition verdict := option bool.     (* Some true well-formed, Some false malformed, None not decided by the text *)
+Definition vand (a b : verdict) : verdict :=
+  match a, b with
+  | Some false, _ => Some false
+  | _, Some false => Some false
+  | Some true, Some true => Some true
+  | _, _ => None
+  end.
+Definition vall (l : list verdict) : verdict := fold_right vand (Some true) l.
 
+Definition is_null (j : json) : bool := match j with JNull => true | _ => false end.
+Definition is_num (j : json) : bool := match j with JFlt _ | JNum _ => true | _ => false end.
+Definition is_str (j : json) : bool := match j with JStr _ => true | _ => false end.
+Definition is_boolean (j : json) : bool := match j with JBool _ => true | _ => false end.
+
+(* every element is of the kind: well-typed; one is neither of the kind nor null: ill-typed *)
+Definition elems_verdict (ok : json -> bool) (l : list json) : verdict :=
+  if forallb ok l then Some true
+  else if forallb (fun e => ok e || is_null e) l then None
+  else Some false.
+
+(* the JSON shape documented for a field ([ftype] is used as the vocabulary of shapes) *)
+Definition has_type (t : ftype) (v : json) : verdict :=
+  match v with
+  | JNull => None
+  | _ =>
+    match t with
+    | TStr => Some (is_str v)
+    | TBool => Some (is_boolean v)
+    | TNumPtr => Some (is_num v)
+    | TNums => match v with JArr l => elems_verdict is_num l | _ => Some false end
+    | TStrs => match v with JArr l => elems_verdict is_str l | _ => Some false end
+    | TStrMap => match v with JObj kv => elems_verdict is_str (map snd kv) | _ => Some false end
+    | TRaws => match v with JArr _ => Some true | _ => Some false end
+    | TBytes => match v with JStr _ | JArr _ => None | _ => Some false end
+    end
+  end.
+
+(* documented members (name, shape), from the documentation's examples and text *)
+Definition metric_doc : schema :=
+  [(k_name, TStr); (k_add, TNumPtr); (k_set, TNumPtr); (k_value, TNumPtr); (k_buckets, TNums);
+   (k_labels, TStrMap); (k_group, TStr); (k_action, TStr)].
+Definition admission_doc : schema :=
+  [(k_allowed, TBool); (k_message, TStr); (k_warnings, TStrs); (k_patch, TBytes)].
+Definition conversion_doc : schema := [(k_failedMessage, TStr); (k_convertedObjects, TRaws)].
+
+Definition count_key (n : bytes) (m : list (bytes * json)) : nat :=
+  length (filter (fun kv => bytes_eqb (fst kv) n) m).
+(* every key that equals a documented name up to letter case IS that name, and no documented name twice *)
+Definition clean_doc (sch : schema) (m : list (bytes * json)) : bool :=
+  forallb (fun kv => forallb (fun f => implb (bytes_eqb (fold_key (fst f)) (fold_key (fst kv)))
+                                             (bytes_eqb (fst f) (fst kv))) sch) m
+  && forallb (fun f => Nat.leb (count_key (fst f) m) 1) sch.
+Definition typed_verdict (sch : schema) (m : list (bytes * json)) : verdict :=
+  vall (map (fun f => match assoc (fst f) m with None => Some true | Some v => has_type (snd f) v end) sch).
+
+Definition has_key (n : bytes) (m : list (bytes * json)) : bool :=
+  match assoc n m with Some _ => true | None => false end.
+Definition str_key (n : bytes) (m : list (bytes * json)) : option bytes :=
+  match assoc n m with Some (JStr s) => Some s | _ => None end.
+Definition empty_key (n : bytes) (m : list (bytes * json)) : bool :=
+  match str_key n m with Some [] => true | _ => false end.
+
+(* the action an operation asks for: "action", or the shortcut that stands for it *)
+Definition doc_action (m : list (bytes * json)) : option bytes :=
+  match str_key k_action m with
+  | Some a => Some a
+  | None => if has_key k_add m then Some k_add else if has_key k_set m then Some k_set else None
+  end.
+
+(* the documented operations: add/set/observe need a name and a value, observe needs buckets and
+   is unsupported for grouped metrics, expire needs a group (and nothing else) *)
+Definition metric_rules (m : list (bytes * json)) : verdict :=
+  if empty_key k_name m || empty_key k_group m || empty_key k_action m then None
+  else if (has_key k_add m || has_key k_set m)
+          && (has_key k_action m || has_key k_value m || (has_key k_add m && has_key k_set m)) then None
+  else
+    match doc_action m with
+    | None => Some false
+    | Some a =>
+      let is x := bytes_eqb a x in
+      Some ((if has_key k_group m then is k_add || is k_set || is s_expire
+             else is k_add || is k_set || is s_observe)
+            && (has_key k_name m || (has_key k_group m && is s_expire))
+            && implb (is k_add || is k_set || is s_observe)
+                     (has_key k_value m || has_key k_add m || has_key k_set m)
+            && implb (is s_observe) (has_key k_buckets m))
+    end.
+Definition no_rules (m : list (bytes * json)) : verdict := Some true.
+
+Definition doc_verdict (sch : schema) (rules : list (bytes * json) -> verdict) (d : json) : verdict :=
+  match d with
+  | JObj m => if clean_doc sch m
+              then match typed_verdict sch m with Some true => rules m | v => v end
+              else None
+  | JNull => None
+  | _ => Some false
+  end.
+
+Definition kind_verdict (k : fkind) : verdict :=
+  match k with FEmpty | FValid => Some true | FTruncated | FWrongType => Some false | FText _ => None end.
+
+Definition v_metrics (k : fkind) : verdict :=
+  match k with
+  | FText s => match parse_stream s with
+               | None => Some false                 (* not a sequence of JSON documents *)
+               | Some docs => vall (map (doc_verdict metric_doc metric_rules) docs)
+               end
+  | _ => kind_verdict k
+  end.
+Definition single_verdict (sch : schema) (s : bytes) : verdict :=
+  match s with
+  | [] => Some true
+  | _ => match parse_single s with
+         | None => Some false                       (* not exactly one JSON document *)
+         | Some d => doc_verdict sch no_rules d
+         end
+  end.
+Definition v_admission (k : fkind) : verdict :=
+  match k with FText s => single_verdict admission_doc s | _ => kind_verdict k end.
+Definition v_conversion (k : fkind) : verdict :=
+  match k with FText s => single_verdict conversion_doc s | _ => kind_verdict k end.
+Definition v_patch (k : fkind) : verdict := kind_verdict k.     (* a text in the patch position: not decided (YAML) *)
+
+Definition all_wf (i : input) : verdict :=
+  vall [v_metrics (i_metrics i); v_patch (i_patch i); v_admission (i_admission i); v_conversion (i_conversion i)].
+
+(* ---------------------------------------------------------------- "applied", as far as the harness can see it *)
+(* the document carries the probe metric's name somewhere *)
+Definition mentions (d : json) : bool :=
+  match d with
+  | JObj m => existsb (fun kv => json_eqb (snd kv) (JStr probe_name)) m
+  | _ => false
+  end.
+(* an ungrouped add/set of the probe metric with label names prometheus takes *)
+Definition plain_probe (d : json) : bool :=
+  match d with
+  | JObj m =>
+      match str_key k_name m, doc_action m with
+      | Some n, Some a =>
+          bytes_eqb n probe_name && negb (has_key k_group m)
+          && (bytes_eqb a k_set || bytes_eqb a k_add)
+          && match assoc k_labels m with
+             | Some (JObj kv) => forallb (fun e => plain_label (fst e)) kv
+             | Some _ => false
+             | None => true
+             end
+      | _, _ => false
+      end
+  | _ => false
+  end.
+(* Some true: the probe family must exist after a successful run; Some false: it must not; None: not decided *)
+Definition expect_metric (k : fkind) : option bool :=
+  match k with
+  | FValid => Some true
+  | FText s =>
+      match parse_stream s with
+      | None => Some false
+      | Some docs =>
+          if negb (existsb mentions docs) then Some false
+          else match v_metrics k with
+               | Some true => if forallb (fun d => negb (mentions d) || plain_probe d) docs then Some true else None
+               | _ => None
+               end
+      end
+  | _ => Some false
+  end.
+Definition expect_patch (k : fkind) : bool := match k with FValid => true | _ => false end.
+
+(* ---------------------------------------------------------------- the predicate *)
 (* the part of the property that is logic: outcome and clean-up *)
 Definition P_logic (i : input) (o : observation) : bool :=
   negb (ob_bad o)
   && (if ob_started o
-      then Bool.eqb (N.eqb (ob_status o) 0) (Z.eqb (i_exit i) 0 && all_parse i)   (* success iff exit 0 and all outputs parse *)
+      then (match all_wf i with
+            | Some b => Bool.eqb (N.eqb (ob_status o) 0) (Z.eqb (i_exit i) 0 && b)   (* success iff exit 0 and all outputs well-formed *)
+            | None => if Z.eqb (i_exit i) 0 then true else negb (N.eqb (ob_status o) 0)
+            end)
            && (if negb (Z.eqb (i_exit i) 0) then negb (ob_metric_applied o) && negb (ob_patch_applied o) else true)
            && (if N.eqb (ob_status o) 0
-               then Bool.eqb (ob_metric_applied o) (has_content (i_metrics i))
-                    && Bool.eqb (ob_patch_applied o) (has_content (i_patch i))
+               then (match expect_metric (i_metrics i) with
+                     | Some b => Bool.eqb (ob_metric_applied o) b
+                     | None => true
+                     end)
+                    && Bool.eqb (ob_patch_applied o) (expect_patch (i_patch i))
                else true)
       else negb (N.eqb (ob_status o) 0))                                            (* not even started: not a success *)
   && N.eqb (ob_tmp_after o) 0.                                                       (* temp files gone, whatever the outcome *)
@@ -38,3 +226,19 @@ Definition P_os (i : input) (o : observation) : bool :=
 
 Definition P (i : input) (o : observation) : bool := P_logic i o && P_os i o.
 
+(* ---------------------------------------------------------------- trigger of the finding "conversion response followed by other data" *)
+(* the conversion response file starts with a document the decoder takes, and something other
+   than whitespace follows it: conversion.ResponseFromReader decodes once and never looks at the rest *)
+Definition T_conv (i : input) : bool :=
+  match i_conversion i with
+  | FText s =>
+      match s with
+      | [] => false
+      | _ => match parse_first s with
+             | Some (d, t) => (match decode_struct conversion_schema d with Some _ => true | None => false end)
+                              && negb (all_ws t)
+             | None => false
+             end
+      end
+  | _ => false
+  end.
